@@ -43,7 +43,7 @@ MANIFEST = {
 EXPLANATION = MANIFEST["level_text"]
 TRUSTED = [
     "pyvc VC generator and its encoding of Python ints/bytes/lists (DESIGN §3.1); list-of-bytes concatenation ghost maintained by append",
-    "z3 5.1.0 / cvc5 1.0.3",
+    "z3 5.1.0 / cvc5 1.4.0",
     "zstandard: get_frame_parameters().content_size is the header field (-1 or 2**64-1 when absent); ZstdDecompressor.decompress returns the whole stream only when its length equals the declared size and refuses size-less frames; stream_reader.read(n>=1) returns at most n bytes, a prefix of the pending decoded stream, empty only when nothing is pending; read(0) == b''; read() returns everything pending",
     "zlib: decompressobj.decompress(buf, n>=1) returns at most n bytes, a prefix of the pending decoded stream, and when it returns fewer than n bytes nothing is pending and unconsumed_tail is empty; max_length 0 means unlimited; flush() decodes unconsumed_tail without limit and returns everything pending",
 ]
